@@ -124,6 +124,7 @@ def run_one(tape, cfg):
         subset_all = tape.chance(1, 3, "subset_all")
         # "aligned": input sorted on the key, cut only where the key changes, as many output as input
         # partitions -- the shape dask recognises as already sorted (no shuffle at all)
+        mixed_dtype = tape.chance(1, 2, "mixed_dtype")
         aligned = tape.chance(1, 4, "aligned")
         if aligned:
             df = df.sort_values("k", kind="stable", na_position="last").reset_index(drop=True)
@@ -137,7 +138,17 @@ def run_one(tape, cfg):
         out.probe("aligned_presorted_input")
     bounds = [0] + cuts + [n]
     pieces = [df.iloc[a:b] for a, b in zip(bounds[:-1], bounds[1:])]
-    wl = {"rows": n, "keykind": kind, "keys": [str(x) for x in df["k"].tolist()], "w": df["w"].tolist(),
+    # (only for the hash-partitioned operations, whose partitioning code casts the key to a common
+    # dtype for exactly this case; quantile-based divisions of such a frame are the user's problem)
+    mixed_dtype = mixed_dtype and op in ("shuffle", "drop_duplicates", "unique", "nunique")
+    if kind == "float_nan" and mixed_dtype:
+        # partitions whose key column deviates from the (float64) meta: a null-free partition of
+        # whole numbers arrives as int64, as it does when every file is parsed on its own
+        conv = [len(p) and p["k"].notna().all() and (p["k"] == p["k"].round()).all() for p in pieces]
+        if any(conv) and not all(conv):
+            out.probe("int64_partition_under_float64_meta")
+        pieces = [p.astype({"k": "int64"}) if c else p for p, c in zip(pieces, conv)]
+    wl = {"mixed_partition_dtypes": bool(kind == "float_nan" and mixed_dtype), "rows": n, "keykind": kind, "keys": [str(x) for x in df["k"].tolist()], "w": df["w"].tolist(),
           "cuts": cuts, "op": op, "method": method, "nout": nout, "max_branch": max_branch,
           "ascending": ascending, "na_position": na_position, "on_two": on_two, "subset_all": subset_all}
     out.decoded = wl
